@@ -4,6 +4,7 @@ Every oracle works on what the REAL compiled tracer printed (callback log, conte
 and on the Coq reader's decoding of the REAL packets; none of them consults the tracer model.
 The tracer model is compared separately (correspondence)."""
 import os
+import sys
 import shutil
 from concurrent.futures import ThreadPoolExecutor
 
@@ -26,6 +27,10 @@ PARAMS = {
     'C16': dict(q=(20, 8), t=(300, 24), h=dict(p_full=0.3, p_other=0.35, p_toggle=0.15, p_swap=0.1, p_eager=0.25), c=dict(), lens=[8, 20, 40], extra=[0, 12, 40]),
 }
 
+
+# the C16 store probe (mprotect + x86 trap flag single step) needs Linux on x86-64
+import platform as _platform
+STORE_PROBE_OK = sys.platform.startswith('linux') and _platform.machine() == 'x86_64'
 
 class Hist:
     pass
@@ -63,6 +68,10 @@ def run_one_config(args):
             res['probes'], res['probe_error'] = tc.probe_sizes(cfg, s, d, rng)
             res['rprobes'], res['rprobe_error'] = tc.probe_reserve(d, rng)
             res['sprobes'], res['sprobe_error'] = tc.probe_switch(cfg, s, d, rng)
+        if pid == 'C16' and STORE_PROBE_OK:
+            spexe, sperr = tc.build_store_probe(d)
+            res['store_probe'] = tc.run_store_probe(spexe, len(hists)) if spexe else None
+            res['store_probe_error'] = sperr
         impl = tc.run_impl(exe, len(hists))
         evs = [tc.split_events(t) for t, _ in impl]
         packets = [tc.packets_of(e) for e in evs]
@@ -403,13 +412,17 @@ def oracle_packets(ctx, r, hi, stats):
     pf = s['pf']
     disc, k = 0, 0
     rep = {'config_seed': r['seed'], 'history': hi, 'config': cfg_repr(cfg), 'calls': h['calls'], 'oracle': h['oracle'][:60], 'buf_bytes': h['buf']}
-    for e in events:
+    for ei, e in enumerate(events):
         if e[0] == 3:
             disc = e[5]
         if e[0] != 2:
             continue
         p = pk[k]
         why = None
+        # the content size the closing function recorded in the context (first call return after the hand-over, unless
+        # another packet is handed over before it): the packet context must state that very value
+        nxt = [x for x in events[ei + 1:] if x[0] in (2, 3)]
+        ctx_content = nxt[0][3] if nxt and nxt[0][0] == 3 and len(nxt[0]) > 3 else None
         if p is None:
             why = 'reader rejects the packet'
         else:
@@ -424,6 +437,8 @@ def oracle_packets(ctx, r, hi, stats):
                 why = 'packet_size %r for a buffer of %d bytes' % (p['pc']['packet_size'], len(raw[k]))
             elif p['pc']['content_size'] > 8 * len(raw[k]):
                 why = 'content_size %d > total' % p['pc']['content_size']
+            elif ctx_content is not None and p['pc']['content_size'] != field_mod(pf['content'], ctx_content):
+                why = 'content_size %r, the closing function recorded %d bits' % (p['pc']['content_size'], ctx_content)
             elif pf['seq'] and p['pc']['packet_seq_num'] != field_mod(pf['seq'], k):
                 why = 'packet_seq_num %r for packet #%d' % (p['pc']['packet_seq_num'], k)
             elif pf['disc'] and p['pc']['events_discarded'] != field_mod(pf['disc'], disc):
@@ -749,6 +764,33 @@ def campaign(ctx, pid):
                             ctx.violation('%s: tracing call with a packet switch (record of %d bits at the old position %d, %d bits at the new position %d, '
                                           'packet of %d bits): expected %r, the generated tracer gives %r' % (
                                               pid, pr['size_at_p'], pr['p'], pr['size_at_q'], pr['q'], pr['packet_bits'], pr['expected'], im), rep)
+        if pid == 'C16' and STORE_PROBE_OK:
+            if r.get('store_probe') is None:
+                ctx.corr_broken.append('config seed %d: %s' % (r['seed'], r.get('store_probe_error')))
+            else:
+                for hi, sp in enumerate(r['store_probe']):
+                    h = r['hists'][hi]
+                    if isinstance(sp, str):
+                        # the probe run did not finish (e.g. a history in which the tracer writes outside every buffer)
+                        stats['store_probe_runs_failed'] += 1
+                        if stats['store_probe_runs_failed'] <= 3:
+                            ctx.notes.append('store probe run failed: config seed %d history %d: %s' % (r['seed'], hi, sp[:160]))
+                        continue
+                    nst, nbad, first, toks = sp
+                    stats['store_probe_histories'] += 1
+                    stats['buffer_stores_observed'] += nst
+                    if toks != list(r['impl'][hi][0]) and r['impl'][hi][1] is None:
+                        stats['store_probe_log_differs'] += 1
+                    if nbad:
+                        stats['buffer_stores_with_flag_0'] += nbad
+                        if stats['buffer_stores_with_flag_0'] == nbad or stats['store_probe_violations'] < 3:
+                            stats['store_probe_violations'] += 1
+                            ctx.violation('C16: %d of the %d stores into the packet buffer happen while the in-tracing-section flag reads 0 '
+                                          '(first one during call %d: %r)' % (nbad, nst, first, h['calls'][first] if 0 <= first < len(h['calls']) else None),
+                                          {'config_seed': r['seed'], 'history': hi, 'config': cfg_repr(cfg), 'calls': h['calls'], 'oracle': h['oracle'][:60],
+                                           'buf_bytes': h['buf'], 'first_offending_call_index': first,
+                                           'note': 'compiled generated tracer, packet buffers in a write-protected arena; the SIGSEGV handler samples '
+                                                   'ctx->in_tracing_section at every store (mprotect + single step)'})
         for hi, h in enumerate(r['hists']):
             stats['histories'] += 1
             stats['calls'] += len(h['calls'])
